@@ -333,7 +333,7 @@ fn gen_case(rng: &mut Rng) -> String {
         }
         ops.push(POp { author, doc: pick_doc(rng), ts, tips, actions });
     }
-    render(&PCase { docs, heads, order: vec![], ops })
+    render(&PCase { docs, heads, order: vec![], g: "?".into(), ops })
 }
 
 /// Exhaustive family: 3 delegates, threshold `t`, two revisions (0 and 1), two commits on every
@@ -359,6 +359,7 @@ fn exhaustive(t: usize, seq: &[(usize, u64, u64)]) -> String {
         docs: vec![(vec![0, 1, 2], t)],
         heads: vec![Some(3), Some(3), Some(2), Some(3), None, None],
         order: vec![],
+        g: "?".into(),
         ops,
     })
 }
